@@ -106,7 +106,7 @@ fn run(name: &str, preemptions: Option<usize>, f: impl Fn() + Sync + Send + 'sta
 
 fn main() {
     let tier = std::env::args().skip_while(|a| a != "--tier").nth(1).unwrap_or_else(|| "quick".into());
-    let out = std::env::args().skip_while(|a| a != "--out").nth(1).unwrap_or_else(|| "/verif/evidence/C02-loom.part.json".into());
+    let out = std::env::args().skip_while(|a| a != "--out").nth(1).unwrap_or_else(|| "/verif/replays/C02-loom.part.json".into());
     let thorough = tier == "thorough";
     std::panic::set_hook(Box::new(|_| {}));
     let mut scenarios = Vec::new();
